@@ -9,12 +9,20 @@
     and for the comparers (anchored adapters without indels) that the reported error count
     is exactly the Hamming distance of the two intervals.
 
-    NOT proved here (named so in MANIFEST/DESIGN: C01_sound is partial in this respect):
-    that the cost reported by the banded DP of Aligner.locate equals the edit distance of the
-    reported intervals.  That clause is covered by the correspondence of the model with the
-    implementation plus the textbook-distance oracle only. *)
+    Also proved (Proofs/AlignDist.v, a second invariant on every cell of the DP column whose cost is
+    within the budget): the reported number of errors is ACHIEVED by an alignment of the two
+    reported intervals -- there is an edit script (matches between compatible characters under the
+    configured wildcard rules, substitutions, insertions and deletions at the configured indel cost)
+    from the adapter interval to the read interval of cost at most the reported errors.  So the true
+    edit distance of the two intervals is <= reported errors <= threshold: the occurrence is genuine
+    and within tolerance, for all eight classes, all 16 flag sets, every read.
+
+    NOT proved here (C01 remains partial in this one respect): the converse inequality, i.e. that no
+    cheaper alignment of the reported intervals exists (optimality of the banded DP).  That clause is
+    covered by the correspondence of the model with the implementation plus the textbook-distance
+    oracle only. *)
 From Coq Require Import ZArith List Bool.
-From CV Require Import Generated.Flags Model.Align Model.Adapters Proofs.AlignProofs Proofs.AdapterProofs.
+From CV Require Import Generated.Flags Model.Align Model.Adapters Proofs.AlignProofs Proofs.AdapterProofs Proofs.AlignDist.
 Import ListNotations.
 Open Scope Z_scope.
 
@@ -42,6 +50,31 @@ Theorem C01_comparer_exact : forall wref wq max_k ov ref query a0 a1 r0 r1 sc e,
 Proof. exact prefix_locate_exact. Qed.
 Print Assumptions C01_comparer_exact.
 
+(** the reported errors are achieved by an alignment of the reported intervals: Aligner.locate,
+    all 16 flag sets, any threshold function bounded by its value at the adapter length *)
+Theorem C01_locate_errors_achieved : forall thr cfg wq ref query rs re qs qe sc e,
+  1 <= indel_cost cfg -> 0 <= thr (zlen ref) -> (forall L, thr L <= thr (zlen ref)) ->
+  locate thr cfg wq ref query = Some (rs, re, qs, qe, sc, e) ->
+  ed (loc_eqc cfg wq) (indel_cost cfg) (zslice (loc_s1 cfg wq ref) rs re) (zslice (loc_s2 cfg wq query) qs qe) e.
+Proof. exact locate_dist. Qed.
+Print Assumptions C01_locate_errors_achieved.
+
+(** ... and for all adapter classes that use the aligner (incl. the class that aligns the reversed strings) *)
+Theorem C01_errors_achieved : forall thr ad read mt,
+  uses_comparer ad = false -> 0 <= thr (zlen (a_seq ad)) -> (forall L, thr L <= thr (zlen (a_seq ad))) ->
+  match_to thr ad read = Some mt ->
+  ed (loc_eqc (ad_cfg ad) (a_wq ad)) (indel_cost (ad_cfg ad))
+     (zslice (loc_s1 (ad_cfg ad) (a_wq ad) (a_seq ad)) (astart mt) (astop mt))
+     (zslice (loc_s2 (ad_cfg ad) (a_wq ad) (ad_query ad read)) (rstart mt) (rstop mt)) (merrors mt).
+Proof. exact match_to_dist. Qed.
+Print Assumptions C01_errors_achieved.
+
+(** the hypothesis on the threshold function holds for every non-negative non-decreasing table *)
+Theorem C01_threshold_tables : forall tab, table_ok tab -> 0 < zlen tab ->
+  0 <= thr_of tab (zlen tab - 1) /\ forall L, thr_of tab L <= thr_of tab (zlen tab - 1).
+Proof. exact thr_of_bound. Qed.
+Print Assumptions C01_threshold_tables.
+
 (** non-vacuity: a concrete 3' adapter with one mismatch inside a read; the hypotheses hold
     and a match is reported *)
 Definition ex_ad : adapter := mkAd Back [65;67;71;84;65;67]%Z true false true 3 false.   (* ACGTAC *)
@@ -50,3 +83,12 @@ Example C01_nonvacuous :
   wf_adapter ex_ad /\ 0 <= ex_thr (zlen (a_seq ex_ad)) /\
   match_to ex_thr ex_ad [84;84;65;67;71;71;65;67;84]%Z = Some (mkM 0 6 2 8 4 1 1).       (* TTACGgACT *)
 Proof. vm_compute. repeat split; congruence. Qed.
+
+(** the hypotheses of C01_errors_achieved hold for the same concrete adapter and table *)
+Example C01_nonvacuous_achieved :
+  uses_comparer ex_ad = false /\ 0 <= ex_thr (zlen (a_seq ex_ad)) /\ (forall L, ex_thr L <= ex_thr (zlen (a_seq ex_ad))).
+Proof.
+  split; [reflexivity|]. split; [vm_compute; congruence|]. intros L. unfold ex_thr, thr_of, znth.
+  destruct (L <? 0); [vm_compute; congruence|].
+  destruct (Z.to_nat L) as [|[|[|[|[|[|[|k]]]]]]]; vm_compute; try congruence. destruct k; congruence.
+Qed.
